@@ -37,7 +37,7 @@ func evaluate(sc *Scenario, out *RunResult, prog Program) {
 	scheduleShutdown := false
 	wexits := 0
 	var obs []ObsEvent
-	serves, rets := 0, 0
+	serves, rets, shutdowns := 0, 0, 0
 	type pendEntry struct {
 		cb   string
 		life int
@@ -86,6 +86,15 @@ func evaluate(sc *Scenario, out *RunResult, prog Program) {
 			cb, g := argS(e, 0), argS(e, 1)
 			started[cb]++
 			startOrder[g] = append(startOrder[g], cb)
+			if g == "" {
+				q := pendq[g]
+				for i := range q {
+					if q[i].cb == cb {
+						pendq[g] = append(append([]pendEntry{}, q[:i]...), q[i+1:]...)
+						break
+					}
+				}
+			}
 			if g != "" {
 				q := pendq[g]
 				if len(q) == 0 || q[0].cb != cb {
@@ -117,10 +126,22 @@ func evaluate(sc *Scenario, out *RunResult, prog Program) {
 			sdBegin = e.Seq
 			if e.Role == "sd" {
 				scheduleShutdown = true
-			} else if !scheduleShutdown {
-				// clean-up Shutdown after the producers finished and the queues drained
+			} else if !prog.Shutdown && shutdowns == serves-1 {
+				// clean-up Shutdown of the last life, after the producers finished and the queues had
+				// time to drain: whatever was accepted in this life must have run
 				obs = append(obs, ObsEvent{E: "quiesced"})
+				for g, q := range pendq {
+					for _, en := range q {
+						if en.life == serves {
+							sc.violate("C02", "lost", fmt.Sprintf("callback %s of group %q was accepted in the current life of the service (no Shutdown in progress) but never ran", en.cb, g), nil)
+							if serves > 1 {
+								sc.violate("C03", "restart-lost", fmt.Sprintf("after a restart, callback %s of group %q was accepted but never ran", en.cb, g), nil)
+							}
+						}
+					}
+				}
 			}
+			shutdowns++
 			obs = append(obs, ObsEvent{E: "sdcall"})
 		case "sd.ret":
 			if argS(e, 0) == "<nil>" {
